@@ -10,6 +10,9 @@ mod transform;
 mod util;
 mod visitor;
 
+#[cfg(datadog_dd_native_iast_rewriter_js_verif)]
+pub mod verif_hooks;
+
 #[cfg(test)]
 mod tests;
 
